@@ -135,6 +135,11 @@ def build():
                  ('known_children_move_as_the_event_says', 'final(self).children@.dom() =~= children_after(old(self).children@.dom(), event)'),
                  ('known_classes_move_as_the_event_says', 'final(self).resources@.dom() =~= classes_after(old(self).resources@.dom(), event)'),
                  ('version_untouched', 'final(self).version == old(self).version'),
+                 # C12: from this event on the child is validated against the NEW identity certificate (verify_rfc6492 reads this
+                 # field, unit c12_rfc6492), and no other child's identity changes
+                 ('a_new_identity_certificate_replaces_the_old_one_for_that_child_only', '''event is ChildUpdatedIdCert ==>
+                        final(self).children@[event->ChildUpdatedIdCert_child].id_cert == event->ChildUpdatedIdCert_id_cert
+                        && (forall |c: ChildHandle| c != event->ChildUpdatedIdCert_child && #[trigger] old(self).children@.contains_key(c) ==> final(self).children@[c] == old(self).children@[c])'''),
              ]),
         # the version laws that unit c07_command assumes of every aggregate, for the CA aggregate
         U.fn(CA, 'CertAuth', 'version', trait='Aggregate', as_inherent=True, ensures=[('is_the_field', 'r == self.version')]),
